@@ -1335,6 +1335,8 @@ class _Ops:
             opt = torch.optim.SGD(params, lr=float(op["lr"]))
             opt.zero_grad()
             y = x.obj(pts)
+            if not y.requires_grad:
+                return None  # the result does not depend on any optimisable parameter reachable from x (e.g. after unlink_)
             loss = ((y - target) ** 2).mean()
             loss.backward()
             opt.step()
@@ -1350,6 +1352,13 @@ class _Ops:
             return StepResult("faulted", "sgd-faulted")
         if st == "raised":
             return StepResult("ok", "sgd-raised", [self.viol("C09", "raises", x, "sgd-step", self.exc_detail(r))])
+        if r is None:
+            # only a call happened
+            self.set_buf(x, "fresh")
+            self.pred_replaces(x)
+            if any(kind_of(e.obj) in ("C", "L") for e in self.elems(x)) or isinstance(x.obj, GenericSpatialTransform):
+                self.related_unknown(x)
+            return StepResult("ok", "sgd-no-grad-path")
         self.pred_replaces(x)
         for e in self.elems(x):
             e.smooth = False if family(e.obj) in ("dense", "spline") else e.smooth
